@@ -218,7 +218,7 @@ pub fn generate_c16(run_seed: u64, thorough: bool) -> ListDesc {
                 }
                 8 => {
                     origin = Origin::Rust;
-                    Op::ToVec { h }
+                    if g.r.chance(1, 3) { Op::Iter { h } } else { Op::ToVec { h } }
                 }
                 9 => {
                     origin = Origin::Rust;
@@ -314,7 +314,7 @@ pub fn generate_c15(run_seed: u64, thorough: bool, faults: bool) -> ListDesc {
         m.heap.new_list(inner_init[k].clone());
     }
     let script_ok = |op: &Op| -> bool { !matches!(op, Op::InnerPush { .. } | Op::FromVec { .. } | Op::CloneH { .. } | Op::DropH { .. } | Op::ToVec { .. } | Op::Iter { .. } | Op::Debug { .. }) };
-    let rust_ok = |op: &Op| -> bool { !matches!(op, Op::Join { .. } | Op::ForCount { .. } | Op::ForSum { .. } | Op::ForPush { .. } | Op::ForFind { .. }) };
+    let rust_ok = |op: &Op| -> bool { !matches!(op, Op::Lit9 { .. } | Op::Join { .. } | Op::ForCount { .. } | Op::ForSum { .. } | Op::ForPush { .. } | Op::ForFind { .. }) };
     for _ in 0..nops {
         let filled: Vec<usize> = (0..nslots).filter(|&s| m.slots[s].is_some()).collect();
         let any = |g: &mut Gen| g.r.below(nslots as u64) as usize;
@@ -322,12 +322,14 @@ pub fn generate_c15(run_seed: u64, thorough: bool, faults: bool) -> ListDesc {
             g.next_val += 1;
             Op::InnerPush { inner: g.r.below(n_inner as u64) as usize, v: 100 + g.next_val }
         } else if filled.is_empty() || g.r.chance(1, 12) {
-            match g.r.below(3) {
+            match g.r.below(4) {
                 0 => Op::New { dst: any(&mut g) },
                 1 => {
-                    let n = *g.r.pick(&[0usize, 1, 2, 3, 4, 5, 8, 9]);
+                    let n = *g.r.pick(&[0usize, 1, 2, 3, 4, 5, 8, 9, 15, 16, 17, 31, 32, 33]);
                     Op::FromVec { dst: any(&mut g), vals: (0..n).map(|_| fresh(&mut g)).collect() }
                 }
+                // open finding F7: a zero-sized value used several times in one literal is not cloned
+                2 if elem != ElemKind::Zst => Op::Lit9 { dst: any(&mut g), vals: (0..3).map(|_| fresh(&mut g)).collect() },
                 _ => Op::Lit3 { dst: any(&mut g), vals: (0..3).map(|_| fresh(&mut g)).collect() },
             }
         } else {
@@ -468,6 +470,7 @@ fn lop_of(op: &Op, ids: &[Option<usize>]) -> Option<LOp> {
         Op::Contains { h, v } => LOp::Contains { l: id(h)?, v: v.clone() },
         Op::Index { h, v } => LOp::Index { l: id(h)?, v: v.clone() },
         Op::ToVec { h } => LOp::ReadAll { l: id(h)? },
+        Op::Iter { h } => LOp::IterVals { l: id(h)? },
         Op::Concat { a, b, dst: None, .. } => LOp::Concat { a: id(a)?, b: id(b)? },
         Op::Eq { a, b, ne } => LOp::Eq { a: id(a)?, b: id(b)?, ne: *ne },
         Op::ForCount { h } => LOp::ForCount { l: id(h)? },
@@ -482,6 +485,7 @@ pub fn op_label(op: &Op, origin: &Origin) -> String {
         Op::New { .. } => "new",
         Op::FromVec { .. } => "from_vec",
         Op::Lit3 { .. } => "literal",
+        Op::Lit9 { .. } => "literal9",
         Op::CloneH { .. } => "clone",
         Op::DropH { .. } => "drop",
         Op::Push { .. } => "push",
@@ -904,7 +908,7 @@ pub fn shrink(d: &ListDesc) -> Vec<ListDesc> {
     for t in 0..d.threads.len() {
         for k in 0..d.threads[t].ops.len() {
             let (op, origin) = &d.threads[t].ops[k];
-            if *origin == Origin::Script && !matches!(op, Op::Join { .. } | Op::ForCount { .. } | Op::ForSum { .. } | Op::ForPush { .. } | Op::ForFind { .. } | Op::Concat { plus: true, .. } | Op::Eq { ne: true, .. } | Op::Lit3 { .. }) {
+            if *origin == Origin::Script && !matches!(op, Op::Join { .. } | Op::ForCount { .. } | Op::ForSum { .. } | Op::ForPush { .. } | Op::ForFind { .. } | Op::Concat { plus: true, .. } | Op::Eq { ne: true, .. } | Op::Lit3 { .. } | Op::Lit9 { .. }) {
                 let mut c = d.clone();
                 c.threads[t].ops[k].1 = Origin::Rust;
                 out.push(c);
